@@ -550,6 +550,88 @@ func vfRunC17Ls(ctx *vfCtx, c vfCaseC17Ls) {
 	}
 }
 
+// ---- long names of a whole listing ----------------------------------------------------------------------------
+//
+// The "ls" sub-check renders one entry at a time. A READDIR reply is rendered as a batch, with whatever the
+// server shares between the entries of a batch (seed F18: a name cache keyed by the bare number, so that gid 7
+// was shown with the name of uid 7). Here a request server whose lister resolves ids to names lists entries
+// whose uids and gids are drawn from the same few numbers; the reply is read off the wire and every entry's
+// long name must show the name of ITS uid and the name of ITS gid.
+
+type vfCaseC17List struct {
+	IDs   [][2]uint32 // uid, gid per entry
+	Batch int
+	Alloc bool
+}
+
+func vfRunC17List(ctx *vfCtx, c vfCaseC17List) {
+	baseline := vfPkgGoroutineIDs()
+	sftp.VfResetGlobals()
+	defer sftp.VfResetGlobals()
+	if c.Batch > 0 {
+		sftp.MaxFilelist = int64(c.Batch)
+	}
+	h := newVfH()
+	h.addDir("/d")
+	var fis []os.FileInfo
+	for i, id := range c.IDs {
+		fis = append(fis, vfMemInfo{name: fmt.Sprintf("e%03d", i), size: int64(i), mode: 0o644, mtime: 1000000000, uid: id[0], gid: id[1]})
+	}
+	h.listOverride = map[string][]os.FileInfo{"/d": fis}
+	srv, err := vfStartSrv(vfSrvCfg{Kind: "rs", Alloc: c.Alloc, HOpts: vfHOpts{NameLookup: true}}, "", h)
+	if err != nil {
+		ctx.Failf("harness/server", "%v", err)
+	}
+	srv.Init(ctx)
+	nreq := 1
+	send := func(p *vfPkt) *vfPkt {
+		srv.Send(p)
+		nreq++
+		if !srv.AwaitReplies(ctx, nreq) {
+			ctx.Failf("C17/list/no-reply", "no reply to %s\n%s", vfPktString(p), vfDumpRelevant())
+		}
+		pk, _, _, _ := srv.Replies()
+		return pk[len(pk)-1]
+	}
+	rep := send(&vfPkt{Type: vfFxpOpendir, ID: 1, Path: []byte("/d")})
+	if rep.Type != vfFxpHandle {
+		ctx.Failf("harness/opendir", "%s", vfPktString(rep))
+	}
+	seen := 0
+	for k := 0; k < len(c.IDs)+3; k++ {
+		r := send(&vfPkt{Type: vfFxpReaddir, ID: uint32(10 + k), Handle: rep.Handle})
+		if r.Type != vfFxpName {
+			break
+		}
+		for _, n := range r.Names {
+			var idx int
+			if _, err := fmt.Sscanf(string(n.Name), "e%03d", &idx); err != nil || idx >= len(c.IDs) {
+				ctx.Failf("C17/list/name", "unexpected entry %q", n.Name)
+			}
+			m := vfLsRe.FindStringSubmatch(string(n.Long))
+			if m == nil {
+				ctx.Failf("C17/ls/shape", "long name %q of %q does not have the ls -l shape", n.Long, n.Name)
+			}
+			wu, wg := fmt.Sprintf("u%d", c.IDs[idx][0]), fmt.Sprintf("g%d", c.IDs[idx][1])
+			if m[3] != wu || m[4] != wg {
+				ctx.Failf("C17/list/owner-names", "entry %q (uid %d, gid %d; the same reply carries them as %d, %d) has the long name %q: owner %s group %s, want %s %s", n.Name, c.IDs[idx][0], c.IDs[idx][1], n.Attrs.UID, n.Attrs.GID, n.Long, m[3], m[4], wu, wg)
+			}
+			if n.Attrs.UID != c.IDs[idx][0] || n.Attrs.GID != c.IDs[idx][1] {
+				ctx.Failf("C17/list/owner-attrs", "entry %q carries uid %d gid %d, the lister reported %d %d", n.Name, n.Attrs.UID, n.Attrs.GID, c.IDs[idx][0], c.IDs[idx][1])
+			}
+			seen++
+		}
+	}
+	if seen != len(c.IDs) {
+		ctx.Failf("C17/list/count", "%d of %d entries listed", seen, len(c.IDs))
+	}
+	srv.Hangup(ctx, "C17/list")
+	vfCheckNoLeak(ctx, "C17/list/leak", baseline)
+	if len(c.IDs) >= 2 {
+		ctx.NonTrivial()
+	}
+}
+
 func TestVerifC17(t *testing.T) {
 	t.Run("words", func(t *testing.T) {
 		vfEnumerate(t, "words", vfProp[vfCaseC17Word]{ID: "C17", Run: vfRunC17Words}, func(yield func(vfCaseC17Word) bool) {
@@ -588,6 +670,17 @@ func TestVerifC17(t *testing.T) {
 				}
 			}
 		})
+	})
+	t.Run("list", func(t *testing.T) {
+		defer vfScaleChecks(4)()
+		vfDriveSub(t, "list", vfProp[vfCaseC17List]{ID: "C17", Run: vfRunC17List, Gen: func(rt *rapid.T) vfCaseC17List {
+			c := vfCaseC17List{Batch: rapid.SampledFrom([]int{0, 1, 2, 3, 100}).Draw(rt, "batch"), Alloc: rapid.Bool().Draw(rt, "alloc")}
+			n := rapid.IntRange(1, 12).Draw(rt, "n")
+			for i := 0; i < n; i++ {
+				c.IDs = append(c.IDs, [2]uint32{uint32(rapid.IntRange(0, 4).Draw(rt, "uid")), uint32(rapid.IntRange(0, 4).Draw(rt, "gid"))})
+			}
+			return c
+		}})
 	})
 	t.Run("ls", func(t *testing.T) {
 		vfDriveSub(t, "ls", vfProp[vfCaseC17Ls]{ID: "C17", Run: vfRunC17Ls, Gen: func(rt *rapid.T) vfCaseC17Ls {
